@@ -3,8 +3,10 @@
 \* worker demand counter (arena::update_request total), enqueued-task stream (population abstracted to a count).
 EXTENDS Integers, Sequences, FiniteSets, TLC
 CONSTANTS Enq, Wrk, NTasks,     \* NTasks[e] = tasks enqueued by enqueuer e
-          UNIQUE_BUSY          \* fact probed from the running code: the busy marker of a clear transaction is unique per transaction
+          UNIQUE_BUSY,         \* fact probed from the running code: the busy marker of a clear transaction is unique per transaction
                                \* (the address of a local of try_clear_if); FALSE = one shared constant
+          PUBLISH_GUARDED      \* fact probed from the running code (probe_publish): FALSE = a publisher (enqueue, task::resume) always runs test_and_set, which
+                               \* aborts a clear transaction in flight (busy -> SET); TRUE = it acts only on an arena that looks empty (is_empty())
 (* --algorithm poolstate {
   variables fifo = 0, flag = <<"U","-">>, demand = 0, executed = 0,
             inArena = [w \in Wrk |-> FALSE];
@@ -15,6 +17,7 @@ CONSTANTS Enq, Wrk, NTasks,     \* NTasks[e] = tasks enqueued by enqueuer e
   E0: while (n < NTasks[self]) {
     E1: fifo := fifo + 1;                               \* my_fifo_task_stream.push (lane mutex + set_one_bit RMW)
     E2: skip;                                           \* atomic_fence_seq_cst()
+    E2g: if (PUBLISH_GUARDED) { s := flag; if (s # U) { goto E9 } };     \* if (a.is_empty()) ... : a busy marker counts as "not empty"
     E3: s := flag;                                      \* test_and_set(): load(acquire)
         if (s = S) { goto E9 } else if (s = U) { goto E5 } else { goto E4 };
     E4: if (flag = s) { flag := S; goto E9 }          \* CAS(busy -> SET): interrupted a clear transaction -> return false
@@ -86,9 +89,19 @@ E1(self) == /\ pc[self] = "E1"
 
 E2(self) == /\ pc[self] = "E2"
             /\ TRUE
-            /\ pc' = [pc EXCEPT ![self] = "E3"]
+            /\ pc' = [pc EXCEPT ![self] = "E2g"]
             /\ UNCHANGED << fifo, flag, demand, executed, inArena, n, s, st, 
                             has >>
+
+E2g(self) == /\ pc[self] = "E2g"
+             /\ IF PUBLISH_GUARDED
+                   THEN /\ s' = [s EXCEPT ![self] = flag]
+                        /\ IF s'[self] # U
+                              THEN /\ pc' = [pc EXCEPT ![self] = "E9"]
+                              ELSE /\ pc' = [pc EXCEPT ![self] = "E3"]
+                   ELSE /\ pc' = [pc EXCEPT ![self] = "E3"]
+                        /\ s' = s
+             /\ UNCHANGED << fifo, flag, demand, executed, inArena, n, st, has >>
 
 E3(self) == /\ pc[self] = "E3"
             /\ s' = [s EXCEPT ![self] = flag]
@@ -129,8 +142,8 @@ E9(self) == /\ pc[self] = "E9"
             /\ pc' = [pc EXCEPT ![self] = "E0"]
             /\ UNCHANGED << fifo, flag, demand, executed, inArena, s, st, has >>
 
-e(self) == E0(self) \/ E1(self) \/ E2(self) \/ E3(self) \/ E4(self)
-              \/ E5(self) \/ E6(self) \/ E9(self)
+e(self) == E0(self) \/ E1(self) \/ E2(self) \/ E2g(self) \/ E3(self)
+              \/ E4(self) \/ E5(self) \/ E6(self) \/ E9(self)
 
 W0(self) == /\ pc[self] = "W0"
             /\ demand > 0 /\ ~inArena[self]
